@@ -247,6 +247,8 @@ def _explain(ctx: Context) -> None:
         "and two deny patterns are searched: a permutation-blind fullness comparison of set(modes) with set(range(...)), "
         "and a sorted/unique/set round trip of the tuple that is bound, passed on or returned. Decides this necessary "
         "clause; it does not decide permutation covariance of the computed index lists."
+        " Further deny patterns: order-insensitive shortcuts, sequential positional edits in loops over the tuple, renumbering loops, mode masks, "
+        "double relabelling of a reduced state, elementwise images of a sorted tuple."
     )
     ctx.rule("C16a", "no fullness test of the requested modes is permutation-blind (set(modes) vs set(range(...)))")
     ctx.rule("C16b", "the requested mode tuple is never replaced by a sorted/unique/set version of itself")
